@@ -274,6 +274,15 @@ def gen_sources(tier):
         ("dep-file-bad-task", {"COND": 'run_command(name="t", run="true", deps=["//p:d"])\n',
                                "p/COND": 'run_command(name="d", run=5)\n'}, False),
         ("cond-is-directory", {"COND/x": "", "p/COND": ""}, False),
+        # every COND file is evaluated in its own scope: names bound by one file are not visible in another
+        ("name-leak-from-dependee", {"COND": 'SHARED = 5\nrun_command(name="t", run="true", args=[SHARED], deps=["//p:d"])\n',
+                                     "p/COND": 'run_command(name="d", run="true", args=[SHARED])\n'}, False),
+        ("name-leak-via-include", {"COND": 'include("common.cond")\nrun_command(name="t", run="true", args=[X], deps=["//p:d"])\n', "common.cond": "X = 1\n",
+                                   "p/COND": 'run_command(name="d", run="true", args=[X])\n'}, False),
+        ("name-leak-function", {"COND": 'def helper():\n    return "x"\nrun_command(name="t", run="true", args=[helper()], deps=["//p:d"])\n',
+                                "p/COND": 'run_command(name="d", run="true", args=[helper()])\n'}, False),
+        ("name-shadow-constructor", {"COND": 'orig = run_command\ndef run_command(**kw):\n    kw["run"] = "shadowed"\n    orig(**kw)\nrun_command(name="t", run="./t.sh", deps=["//p:d"])\n',
+                                     "p/COND": 'run_command(name="d", run="./d.sh")\n'}, True),
         # the same relative include string used by COND files in different directories within one command
         ("include-same-string-second-missing", {"COND": 'include("common.cond")\nrun_command(name="t", run="true", args=[X], deps=["//p:d"])\n',
                                                 "common.cond": "X = 1\n", "p/COND": 'include("common.cond")\nrun_command(name="d", run="true", args=[X])\n'}, False),
@@ -295,7 +304,8 @@ def gen_sources(tier):
         files = dict(files)
         yield {"tag": "special:" + tag, "files": files, "target": "//:t", "expect": expect, "nontrivial": True,
                "outside": tag == "include-outside",
-               "spawn_argv": {"//:t": "./t.sh 1 ", "//p:d": "./d.sh 2 "} if tag == "include-same-string-both-good" else None}
+               "spawn_argv": {"//:t": "./t.sh 1 ", "//p:d": "./d.sh 2 "} if tag == "include-same-string-both-good" else
+                             ({"//:t": "shadowed  ", "//p:d": "./d.sh  "} if tag == "name-shadow-constructor" else None)}
 
 
 def warmup():
